@@ -28,6 +28,8 @@
 #include "common.hpp"
 #include "schemas.hpp"
 
+extern "C" int __real_sqlite3_open_v2(const char*, sqlite3**, int, const char*);
+
 namespace dj = djinterop;
 namespace fs = std::filesystem;
 using vh::json;
@@ -47,6 +49,7 @@ struct world
     std::vector<std::string> names;
     sqlite3* conn = nullptr;
     bool want_raw = false, want_rep = false, auto_reopen = false, want_stmts = false, sweep = false, noobs = false, crash = false;
+    bool locks = false;   // lock sweep (library on disk): every call is first attempted while another connection holds a lock
     bool u8 = false;   // name tokens of the model are given to the library as names with multi-byte UTF-8 characters
     bool dead = false;  // rest of this execution is skipped
     int64_t max_id_seen = 0, max_tid_seen = 0;
@@ -312,6 +315,7 @@ void start_world(world& w, const json& r)
     w.sweep = r.value("sweep", false);
     w.noobs = r.value("noobs", false);
     w.u8 = r.value("u8", false);
+    w.locks = r.value("locks", false) && r.value("mode", "mem") == "disk";
     w.crash = r.value("crash", false) && r.value("mode", "mem") == "disk";
     for (auto& n : r.value("names", json::array()))
         w.names.push_back(n.get<std::string>());
@@ -489,6 +493,59 @@ void do_reopen(world& w, json& rec)
     std::vector<int64_t> cids, tids;
     close_handles(w, cids, tids);
     open_handles(w, cids, tids, rec);
+}
+
+// Another connection (same process, its own sqlite3 handles - one per database file of the library) that takes a
+// SHARED (1), RESERVED (2) or EXCLUSIVE (4) lock on every file, all or nothing, and holds it until released.
+struct foreign_locks
+{
+    std::vector<sqlite3*> conns;
+    static bool exec(sqlite3* c, const char* sql) { return sqlite3_exec(c, sql, nullptr, nullptr, nullptr) == SQLITE_OK; }
+    bool acquire(const std::vector<std::string>& files, int lvl)
+    {
+        for (auto& f : files)
+        {
+            sqlite3* c = nullptr;
+            if (__real_sqlite3_open_v2(f.c_str(), &c, SQLITE_OPEN_READWRITE, nullptr) != SQLITE_OK || !c)
+            {
+                if (c)
+                    sqlite3_close(c);
+                release();
+                return false;
+            }
+            conns.push_back(c);
+            bool ok = lvl == 4 ? exec(c, "BEGIN EXCLUSIVE") : lvl == 2 ? exec(c, "BEGIN IMMEDIATE")
+                                                                    : exec(c, "BEGIN") && exec(c, "SELECT count(*) FROM sqlite_master");
+            if (!ok)
+            {
+                release();
+                return false;
+            }
+        }
+        return true;
+    }
+    void release()
+    {
+        for (auto c : conns)
+        {
+            exec(c, "ROLLBACK");
+            sqlite3_close(c);
+        }
+        conns.clear();
+    }
+};
+
+// the database files behind the library's connection, and which database indices they are
+void db_files(world& w, std::vector<std::string>& files, std::set<int>& idx)
+{
+    vh::raw_reader{w.conn}.query("PRAGMA database_list", [&](sqlite3_stmt* st) {
+        const unsigned char* f = sqlite3_column_text(st, 2);
+        if (f && *f)
+        {
+            files.emplace_back((const char*)f);
+            idx.insert(sqlite3_column_int(st, 0));
+        }
+    });
 }
 
 void exec_op(world& w, const json& op)
@@ -820,6 +877,102 @@ void exec_op(world& w, const json& op)
     }
     if (done_by_crash || w.dead)
         return;
+
+    // Lock sweep (library on disk): before the call proper, the same call is attempted while ANOTHER CONNECTION takes
+    // an EXCLUSIVE, RESERVED or SHARED lock on every database file right before the call's k-th statement is stepped
+    // (k = 1, 2, ...) and holds it until the call has returned or thrown.  SQLite then fails the library's statements
+    // with SQLITE_BUSY exactly where its locking protocol says (a read under a foreign EXCLUSIVE lock, a write under
+    // RESERVED, a COMMIT or an autocommitted write under SHARED).  Every attempt is logged with the class, lock needs
+    // and result of each statement (TraceContention predicts each result); an attempt in which a statement failed is a
+    // faulted attempt (TraceLibrary: Failed - throw, nothing changes); the first attempt in which none failed is the call.
+    if (w.locks && !probe)
+    {
+        std::vector<std::string> files;
+        std::set<int> fidx;
+        db_files(w, files, fidx);
+        bool done = false;
+        for (int k = 1; k <= 64 && !done && !w.dead; ++k)
+            for (int want = 4; want >= 1 && !done && !w.dead;)
+            {
+                // (a level the library's own locks rule out at this point falls back to the next weaker one within the
+                //  same attempt: EXCLUSIVE -> RESERVED -> SHARED; `lvl` is the level actually held, 0 = none)
+                int lvl = 0;
+                json r = rec;
+                size_t nch = w.ch.size(), nth = w.th.size();
+                std::string d0 = vh::raw_reader{w.conn}.digest();
+                foreign_locks fl;
+                bool got = false;
+                newid = 0;
+                shim::begin_call();
+                shim::set_logging(true);
+                shim::set_explain(true);
+                shim::set_hook(k, [&] {
+                    for (int x = want; x >= 1 && !got; x = x == 4 ? 2 : x == 2 ? 1 : 0)
+                        if ((got = fl.acquire(files, x)))
+                            lvl = x;
+                });
+                auto oc = vh::guarded(name.c_str(), f);
+                bool hooked = shim::hook_fired();
+                shim::set_hook(0, nullptr);
+                shim::set_explain(false);
+                int ac = sqlite3_get_autocommit(w.conn);
+                fl.release();
+                json st = json::array();
+                bool any_fail = false;   // a statement was refused because of the foreign lock
+                std::vector<const shim::stmt_rec*> order;
+                for (auto& x : shim::stmts())
+                    if (x.seq > 0)
+                        order.push_back(&x);
+                std::sort(order.begin(), order.end(), [](auto a, auto b) { return a->seq < b->seq; });
+                for (auto x : order)
+                {
+                    bool fw = false, fr = false;
+                    for (auto& nd : x->needs)
+                        if (fidx.count(nd.first))
+                            (nd.second ? fw : fr) = true;
+                    const char* res = (x->rc == SQLITE_ROW || x->rc == SQLITE_DONE) ? "ok" : x->rc == SQLITE_BUSY ? "busy" : "err";
+                    any_fail = any_fail || strcmp(res, "busy") == 0;
+                    st.push_back({{"c", x->cls}, {"fw", fw}, {"fr", fr && !fw}, {"x", x->explained}, {"r", res}, {"rc", x->rc},
+                                  {"h", x->after_hook}, {"chg", x->chg}, {"sql", x->sql.substr(0, 60)}});
+                }
+                r["out"] = oc.ok ? "ok" : "throw";
+                if (!oc.ok)
+                {
+                    r["ex"] = oc.ex;
+                    r["std"] = oc.std_exc;
+                }
+                r["new"] = newid;
+                r["ns"] = shim::n_prepared();
+                r["nw"] = shim::n_writes();
+                r["lk"] = {{"lvl", lvl}, {"want", want}, {"k", k}, {"got", got}, {"hook", hooked}, {"ac", ac}, {"st", st}};
+                want = lvl == 4 ? 2 : lvl == 2 ? 1 : 0;   // next: the strongest level below the one just held
+                if (any_fail)
+                {
+                    r["fault"] = {{"k", k}, {"fired", true}, {"lock", lvl}};
+                    r["dsame"] = vh::raw_reader{w.conn}.digest() == d0;
+                    if (oc.ok)
+                    {
+                        w.ch.resize(nch);
+                        w.th.resize(nth);
+                    }
+                }
+                else
+                    done = true;   // no statement was refused: this attempt was the call itself
+                observation_phase(w, r);
+                if (!any_fail && op.contains("exp") && op["exp"].get<std::string>() != r["out"].get<std::string>())
+                {
+                    r["diverged"] = true;
+                    w.dead = true;
+                }
+                vh::emit(r);
+            }
+        if (!done && !w.dead)
+        {
+            vh::emit({{"e", "skip"}, {"why", "lock sweep did not reach the end of the call"}});
+            w.dead = true;
+        }
+        return;
+    }
 
     // C14 sweep: before the call proper, the same call is attempted with its 1st, 2nd, ... statement
     // failing, until the fault no longer fires (k exceeds the number of statements the call issues);
